@@ -112,6 +112,7 @@ func (tr *Translator) assignItems(env *Env, c *FuncContract) (items []assignItem
 			case "region":
 				// region(p): every cell of the allocated object that contains p, in every partition ("*")
 				p := env.eval(call.Args[0])
+				tr.trusted["region(p): decode targets are model values; the structs of the loader machinery (schemaLoader, ExpandOptions, resolverContext, simpleCache) are never part of them, so their partitions are outside every region"] = true
 				items = append(items, assignItem{comp: "*", region: p.E(), pred: func(a string) string { return eq("(obase "+a+")", "(obase "+p.E()+")") }})
 				continue
 			case "modelmaps":
@@ -242,6 +243,14 @@ func (fc *fctx) callContract(c *FuncContract, key string, params []Param, args [
 func (fc *fctx) callWith(c *FuncContract, key string, vars map[string]*Val, sig *types.Signature, pos token.Pos, callee *ssa.Function) []*Val {
 	tr := fc.tr
 	u := tr.u
+	tr.callArgs = nil
+	for _, v := range vars {
+		if v.Sort == "Int" {
+			tr.callArgs = append(tr.callArgs, v.E())
+		} else if v.Sort == "Iface" {
+			tr.callArgs = append(tr.callArgs, ifPart(v, 1))
+		}
+	}
 	pre := tr.cur.clone()
 	env := &Env{tr: tr, vars: vars, st: pre, old: pre}
 	if c.Trusted {
@@ -311,7 +320,7 @@ func (fc *fctx) callWith(c *FuncContract, key string, vars map[string]*Val, sig 
 			// every partition touched so far may change inside the designated objects; partitions first used
 			// later are related to their old value through the epoch relation
 			for _, cn := range tr.cur.keys() {
-				if strings.Contains(cn, "$") {
+				if strings.Contains(cn, "$") && !machineryPartition(cn) {
 					if _, ok := byComp[cn]; !ok {
 						order = append(order, cn)
 						byComp[cn] = nil
@@ -319,7 +328,7 @@ func (fc *fctx) callWith(c *FuncContract, key string, vars map[string]*Val, sig 
 				}
 			}
 			for cn := range byComp {
-				if strings.Contains(cn, "$") {
+				if strings.Contains(cn, "$") && !machineryPartition(cn) {
 					byComp[cn] = append(byComp[cn], stars...)
 				}
 			}
@@ -333,6 +342,10 @@ func (fc *fctx) callWith(c *FuncContract, key string, vars map[string]*Val, sig 
 		if !c.Pure {
 			n := tr.havocComp("ALLOC")
 			tr.fact("(>= " + n + " " + allocPre + ")")
+			if tr.pendingEpochAlloc > 0 {
+				tr.u.epochAlloc[tr.pendingEpochAlloc] = n
+				tr.pendingEpochAlloc = 0
+			}
 		}
 		for _, cn := range order {
 			old := tr.cur.get(u, cn)
@@ -350,6 +363,7 @@ func (fc *fctx) callWith(c *FuncContract, key string, vars map[string]*Val, sig 
 				continue
 			}
 			tr.factFor(n, fmt.Sprintf("(forall ((a Int)) (! (=> (and (< (obase a) %s) %s) (= (select %s a) (select %s a))) :pattern ((select %s a))))", allocPre, not(or(preds...)), n, old, n))
+			tr.assumeWF(cn, n, tr.cur.get(u, "ALLOC"))
 		}
 	}
 	res := fc.freshResults(sig.Results(), "c_"+sanitize(key))
@@ -455,6 +469,11 @@ func verifyFunc(prog *ssa.Program, spkg *ssa.Package, contracts *Contracts, fn *
 		fc.vals[p] = []*Val{v}
 		fc.params[p.Name()] = v
 		tr.assumeWellFormed(v, p.Type(), 0)
+		if pt, ok := p.Type().Underlying().(*types.Pointer); ok {
+			if st, _ := structOf(pt.Elem()); st != nil {
+				tr.paramHolders = append(tr.paramHolders, paramHolder{v.E(), pt.Elem()})
+			}
+		}
 		if i == 0 && fn.Signature.Recv() != nil && tr.autoRecvNonNil {
 			if _, ok := p.Type().Underlying().(*types.Pointer); ok {
 				tr.fact(not(eq(v.E(), "0")))
@@ -532,7 +551,7 @@ func verifyFunc(prog *ssa.Program, spkg *ssa.Package, contracts *Contracts, fn *
 				var preds []string
 				sk := u.fresh("sk_a")
 				its := byComp[cn]
-				if strings.Contains(cn, "$") {
+				if strings.Contains(cn, "$") && !machineryPartition(cn) {
 					its = append(append([]assignItem{}, its...), byComp["*"]...)
 				}
 				for _, it := range its {
@@ -805,4 +824,19 @@ func (tr *Translator) instantiateLaw(env *Env, cl *Clause) string {
 	}
 	tr.trusted["law "+cl.Name+" (proved in the lemma function, instantiated here)"] = true
 	return implies(and(pre...), law)
+}
+
+// machineryPartition: partitions of the structs of the loader machinery, which no decode target contains
+func machineryPartition(cn string) bool {
+	i := strings.Index(cn, "$")
+	if i < 0 {
+		return false
+	}
+	tag := cn[i+1:]
+	for _, s := range []string{"schemaLoader_", "ExpandOptions_", "resolverContext_", "simpleCache_"} {
+		if strings.HasPrefix(tag, s) {
+			return true
+		}
+	}
+	return false
 }
